@@ -1,15 +1,51 @@
 import RsslVerif.Driver.Util
+import RsslVerif.Driver.C01
+import RsslVerif.Driver.C02
+import RsslVerif.Driver.C03
+import RsslVerif.Driver.C04
+import RsslVerif.Driver.C05
 import RsslVerif.Driver.C06
+import RsslVerif.Driver.C07
+import RsslVerif.Driver.C08
+import RsslVerif.Driver.C09
+import RsslVerif.Driver.C10
+import RsslVerif.Driver.C11
+import RsslVerif.Driver.C12
+import RsslVerif.Driver.C13
+import RsslVerif.Driver.C14
+import RsslVerif.Driver.C15
+import RsslVerif.Driver.C16
+import RsslVerif.Driver.C17
+import RsslVerif.Driver.C18
+import RsslVerif.Driver.C19
 /-!
 `rsslmodel`: reads request lines `<Prop>.<op>\t<arg>\t...` on stdin and prints one observation line
-per request.  Core-only imports, so it links as a `lean_exe`.
+per request.  Core-only imports (no Mathlib anywhere below `Driver/`), so it links as a `lean_exe`.
 -/
 open RsslVerif.Driver
 
 def dispatch (line : String) : String :=
   match fields line with
   | op :: args =>
-    if op == "C06.assign" then C06.handle args
+    if op.startsWith "C01." then C01.handle op args
+    else if op.startsWith "C02." then C02.handle op args
+    else if op.startsWith "C03." then C03.handle op args
+    else if op.startsWith "C04." then C04.handle op args
+    else if op.startsWith "C05." then C05.handle op args
+    else if op.startsWith "C06." then C06.handle op args
+    else if op.startsWith "C07." then C07.handle op args
+    else if op.startsWith "C08." then C08.handle op args
+    else if op.startsWith "C09." then C09.handle op args
+    else if op.startsWith "C10." then C10.handle op args
+    else if op.startsWith "C11." then C11.handle op args
+    else if op.startsWith "C12." then C12.handle op args
+    else if op.startsWith "C13." then C13.handle op args
+    else if op.startsWith "C14." then C14.handle op args
+    else if op.startsWith "C15." then C15.handle op args
+    else if op.startsWith "C16." then C16.handle op args
+    else if op.startsWith "C17." then C17.handle op args
+    else if op.startsWith "C18." then C18.handle op args
+    else if op.startsWith "C19." then C19.handle op args
     else "unsupported-op"
   | [] => "bad-request"
 
